@@ -45,40 +45,56 @@ func zzEndpoint(addr string) *envoy_config_endpoint_v3.LbEndpoint {
 	}
 }
 
-// VerifC12_EndpointUnion: an endpoint assignment with several localities
-// leaves the cluster with the union of all localities' endpoints.
+// VerifC12_EndpointUnion: an endpoint push with one or two assignments, each
+// with several localities, leaves every named cluster with the union of its own
+// localities' endpoints - nothing of another assignment of the same push.
 func VerifC12_EndpointUnion() {
 	cm := &zzCM{hosts: map[string][]string{}}
 	ad := clusterAdapter.GetClusterMngAdapterInstance()
 	saved := ad.ClusterManager
 	ad.ClusterManager = cm
 	defer func() { ad.ClusterManager = saved }()
-	nl := 1 + verif.Choose("localities", verif.Param("maxloc", 2, 3))
-	var want []string
-	la := &envoy_config_endpoint_v3.ClusterLoadAssignment{ClusterName: "c"}
+	na := 1 + verif.Choose("assignments", 2)
+	want := map[string][]string{}
+	var push []*envoy_config_endpoint_v3.ClusterLoadAssignment
 	next := 0
-	for l := 0; l < nl; l++ {
-		loc := &envoy_config_endpoint_v3.LocalityLbEndpoints{}
-		ne := verif.Choose("endpoints", 3)
-		for e := 0; e < ne; e++ {
-			addr := "10.0.0." + string(rune('1'+next))
-			next++
-			want = append(want, addr+":80")
-			loc.LbEndpoints = append(loc.LbEndpoints, zzEndpoint(addr))
+	multi := false
+	for a := 0; a < na; a++ {
+		name := "c" + string(rune('0'+a))
+		nl := 1 + verif.Choose("localities", verif.Param("maxloc", 2, 3))
+		la := &envoy_config_endpoint_v3.ClusterLoadAssignment{ClusterName: name}
+		for l := 0; l < nl; l++ {
+			loc := &envoy_config_endpoint_v3.LocalityLbEndpoints{}
+			ne := verif.Choose("endpoints", 3)
+			for e := 0; e < ne; e++ {
+				addr := "10.0.0." + string(rune('1'+next))
+				next++
+				want[name] = append(want[name], addr+":80")
+				loc.LbEndpoints = append(loc.LbEndpoints, zzEndpoint(addr))
+			}
+			la.Endpoints = append(la.Endpoints, loc)
 		}
-		la.Endpoints = append(la.Endpoints, loc)
+		if nl > 1 {
+			multi = true
+		}
+		push = append(push, la)
 	}
-	err := (&xdsConverter{rdsrecords: map[string]struct{}{}}).ConvertUpdateEndpoints([]*envoy_config_endpoint_v3.ClusterLoadAssignment{la})
+	err := (&xdsConverter{rdsrecords: map[string]struct{}{}}).ConvertUpdateEndpoints(push)
 	verif.Assert(err == nil, "endpoint update failed")
-	got := cm.hosts["c"]
-	verif.Assert(len(got) == len(want), "cluster host set is not the union of the localities' endpoints")
-	if len(got) == len(want) {
-		for i := range want {
-			verif.Assert(got[i] == want[i], "cluster host set is not the union of the localities' endpoints")
+	for _, la := range push {
+		got, w := cm.hosts[la.ClusterName], want[la.ClusterName]
+		verif.Assert(len(got) == len(w), "cluster host set is not the union of the localities' endpoints of its own assignment")
+		if len(got) == len(w) {
+			for i := range w {
+				verif.Assert(got[i] == w[i], "cluster host set is not the union of the localities' endpoints of its own assignment")
+			}
 		}
 	}
-	if nl > 1 {
+	if multi {
 		verif.Cover("multi-locality")
+	}
+	if na > 1 {
+		verif.Cover("two assignments in one push")
 	}
 	verif.Cover("end")
 }
